@@ -96,7 +96,7 @@ func (w *World) VerifyFunc(fi *FuncInfo, c *Contract, opts VerifyOpts) (res *Uni
 	ex := NewExec(w, ctx)
 	ex.fi, ex.contract, ex.funcKey = fi, c, key
 	ex.info, ex.pkg = fi.Pkg.TypesInfo, fi.Pkg.Types
-	ex.safety, ex.traceEvents = opts.Safety || opts.Bounds, opts.Events
+	ex.safety, ex.traceEvents = opts.Safety || opts.Bounds, opts.Events || (c != nil && len(c.AtCall) > 0)
 	ex.boundsOnly = opts.Bounds && !opts.Safety
 	ex.oblCalls = true
 	sig := fi.Obj.Type().(*types.Signature)
@@ -227,6 +227,9 @@ func (w *World) VerifyFunc(fi *FuncInfo, c *Contract, opts VerifyOpts) (res *Uni
 			p.names[l.Name] = ex.evalClauseValue(p, l.E)
 		}
 	}
+	if opts.Closure == 0 {
+		ex.setupFrame(p, c)
+	}
 	if c != nil && len(c.Requires) > 0 {
 		ex.addObl(p, key+"#cover.requires", "cover", "precondition is satisfiable", "false", fi.Decl.Pos(), "")
 	}
@@ -300,6 +303,7 @@ func (w *World) VerifyFunc(fi *FuncInfo, c *Contract, opts VerifyOpts) (res *Uni
 				g := ex.evalClause(q, e.E, false)
 				ex.addObl(q, fmt.Sprintf("%s#ensures[%s]", key, nm), "ensures", e.Text, g, fi.Decl.Pos(), "")
 			}
+			ex.checkFrame(q, fi.Decl.Pos(), "exit")
 		case oPanic:
 		default:
 			panic(unsupported{"stray break/continue at function level", token.NoPos})
@@ -663,4 +667,118 @@ func (w *World) VerifyLemma(l *Lemma, opts VerifyOpts) (res *UnitResult) {
 
 func sortResults(rs []*UnitResult) {
 	sort.Slice(rs, func(i, j int) bool { return rs[i].Unit < rs[j].Unit })
+}
+
+// ---------------------------------------------------------------------------------------
+// Frame conditions. A contract's `modifies` clause is what callers rely on when they keep their knowledge of
+// the heap across a call, so the body is checked against it: at every exit (and inductively through every
+// loop) each heap cell of an object that existed at entry and is not named by `modifies` holds its entry value.
+
+type frameInfo struct {
+	all     bool              // modifies *
+	objects []frameObj        // objects (entry values of pointer parameters) that may change
+}
+
+type frameObj struct {
+	ref    string // entry value
+	prefix string // heap keys of this object: "~pkg.Type." (named struct) or the deref key
+	field  string // "" = every field
+}
+
+func (ex *Exec) setupFrame(p *Path, c *Contract) {
+	ex.frame = nil
+	if c == nil || c.Assume {
+		return
+	}
+	fr := &frameInfo{}
+	for _, m := range c.Modifies {
+		if m == "*" {
+			fr.all = true
+			continue
+		}
+		name, field := m, ""
+		if i := strings.Index(m, "."); i >= 0 {
+			name, field = m[:i], m[i+1:]
+		}
+		v, ok := p.entry[name]
+		if !ok {
+			v, ok = p.names[name]
+		}
+		if !ok {
+			continue
+		}
+		ptr, isPtr := v.Ty.Underlying().(*types.Pointer)
+		if !isPtr {
+			continue // maps and values: not heap cells
+		}
+		if named, ok := types.Unalias(ptr.Elem()).(*types.Named); ok {
+			if _, isStruct := named.Underlying().(*types.Struct); isStruct {
+				fr.objects = append(fr.objects, frameObj{ref: v.T, prefix: heapKeyOf(named, ""), field: field})
+				continue
+			}
+		}
+		fr.objects = append(fr.objects, frameObj{ref: v.T, prefix: "deref:" + sortToken(ex.c.SortOf(ptr.Elem()))})
+	}
+	ex.frame = fr
+}
+
+// frameCond states that heap key k, whose current term is cur, agrees with the entry heap on every object that
+// existed at entry and that the contract does not allow to change.
+func (ex *Exec) frameCond(k, cur string) string {
+	s := ex.sortOfHeapTerm(cur)
+	if s == "" {
+		return ""
+	}
+	base := ex.c.Const("H:"+k, s)
+	if cur == base {
+		return ""
+	}
+	guard := []string{"(< (" + ex.birthFun() + " r!f) 0)", "(not (= r!f null))"}
+	for _, o := range ex.frame.objects {
+		kk := strings.TrimPrefix(k, "~")
+		if strings.HasPrefix(kk, o.prefix) && (o.field == "" || kk == o.prefix+o.field) {
+			guard = append(guard, "(not (= r!f "+o.ref+"))")
+		}
+	}
+	return "(forall ((r!f Ref)) (=> " + and(guard...) + " (= (select " + cur + " r!f) (select " + base + " r!f))))"
+}
+
+func (ex *Exec) frameKeys(p *Path) []string {
+	var ks []string
+	for k := range p.heap {
+		if strings.HasPrefix(k, "ghost:") {
+			continue
+		}
+		ks = append(ks, k)
+	}
+	sort.Strings(ks)
+	return ks
+}
+
+// checkFrame records the frame obligations of the current state.
+func (ex *Exec) checkFrame(p *Path, pos token.Pos, where string) {
+	if ex.frame == nil || ex.frame.all || ex.inContract() {
+		return
+	}
+	if p.heapGen != "" {
+		ex.addObl(p, ex.funcKey+"#frame[*]", "frame", "the body reaches code that may write any heap cell, so the contract must say `modifies *`: "+strings.Join(uniqSorted(ex.havocWhy), "; "), "false", pos, where)
+		return
+	}
+	for _, k := range ex.frameKeys(p) {
+		if g := ex.frameCond(k, p.heap[k]); g != "" {
+			ex.addObl(p, ex.funcKey+"#frame["+strings.TrimPrefix(k, "~")+"]", "frame", "objects that existed at entry and are not named by `modifies` keep their "+strings.TrimPrefix(k, "~"), g, pos, where)
+		}
+	}
+}
+
+// assumeFrame: after a loop havoc, the (inductively checked) frame condition of the havocked keys.
+func (ex *Exec) assumeFrame(p *Path) {
+	if ex.frame == nil || ex.frame.all || p.heapGen != "" {
+		return
+	}
+	for _, k := range ex.frameKeys(p) {
+		if g := ex.frameCond(k, p.heap[k]); g != "" {
+			p.Assume(g)
+		}
+	}
 }
